@@ -13,7 +13,6 @@ structure Collectable (sh : Shared) : Prop where
   free : sh.node.lock = none
   tag : sh.tag0 ≠ .init
   static : sh.static ≠ .locked
-  sized : sh.root = true → (sh.dyn sh.inc).st ≠ .created
 
 set_option maxHeartbeats 4000000 in
 theorem solo_cleanup_general (sh : Shared) (pid : Nat) (h : Collectable sh) :
@@ -22,10 +21,10 @@ theorem solo_cleanup_general (sh : Shared) (pid : Nat) (h : Collectable sh) :
     (sh.tag0 = .final → sh.static = .final → ((r.1.dyn sh.inc).st = .absent ∨ (r.1.dyn sh.inc).regV = false)) ∧
     (sh.tag0 = .final → sh.static = .final → ((sh.dyn sh.inc).st ≠ .final ∨ (sh.dyn sh.inc).versioned = false ∨ (sh.dyn sh.inc).others = 0) →
       r.1.static = .absent ∧ (r.1.dyn sh.inc).st = .absent) := by
-  obtain ⟨hp, hd, hl, ht, hs, hz⟩ := h
-  obtain ⟨static, written, inc, dyn0, dyn1, dyn2, tag0, tag1, node, svcDir, root⟩ := sh
+  obtain ⟨hp, hd, hl, ht, hs⟩ := h
+  obtain ⟨static, written, inc, dyn0, dyn1, dyn2, tag0, tag1, node, svcDir⟩ := sh
   obtain ⟨present, alive, lock, dir⟩ := node
-  simp only at hp hd hl ht hs hz
+  simp only at hp hd hl ht hs
   subst hp hd hl
   cases tag0 <;> cases static <;> simp at ht hs
   -- tag absent (3 cases of static → 2 after hs), tag final × static absent: no dynamic config is looked at
@@ -35,15 +34,12 @@ theorem solo_cleanup_general (sh : Shared) (pid : Nat) (h : Collectable sh) :
   case final.final =>
     rcases inc with _ | _ | n
     · obtain ⟨st, inited, versioned, regV, others⟩ := dyn0
-      simp only [Shared.dyn] at hz
-      cases st <;> cases root <;> cases versioned <;> rcases others with _ | m <;> simp at hz <;>
+      cases st <;> cases versioned <;> rcases others with _ | m <;>
         simp [runSolo, fuel, stepL, cleanerStep, mkCleaner, finishC, pcDone, Shared.dyn, Shared.setDyn]
     · obtain ⟨st, inited, versioned, regV, others⟩ := dyn1
-      simp only [Shared.dyn] at hz
-      cases st <;> cases root <;> cases versioned <;> rcases others with _ | m <;> simp at hz <;>
+      cases st <;> cases versioned <;> rcases others with _ | m <;>
         simp [runSolo, fuel, stepL, cleanerStep, mkCleaner, finishC, pcDone, Shared.dyn, Shared.setDyn]
     · obtain ⟨st, inited, versioned, regV, others⟩ := dyn2
-      simp only [Shared.dyn] at hz
-      cases st <;> cases root <;> cases versioned <;> rcases others with _ | m <;> simp at hz <;>
+      cases st <;> cases versioned <;> rcases others with _ | m <;>
         simp [runSolo, fuel, stepL, cleanerStep, mkCleaner, finishC, pcDone, Shared.dyn, Shared.setDyn]
 end Iox2.ServiceCrash
